@@ -17,6 +17,7 @@ before wrapping.  `escapingEngine` below satisfies the law AND has that escaping
 The formal semantics is validated against Go's `regexp` by the `rx` differential of the harness.
 -/
 import SerfProofs.Lemmas.Regex
+import SerfProofs.Lemmas.RegexSem
 import SerfModel.Gen.AnchorTemplate
 namespace SerfProofs.C26
 open SerfModel SerfModel.Regex SerfProofs.Regex
@@ -35,6 +36,52 @@ theorem search_wrap (r : Regex) (w : List Char) : search (wrap r) w = fullMatch 
   have := C26_anchor_sound r w
   unfold wrap
   cases h1 : search (.cat .bot (.cat (.group r) .eot)) w <;> cases h2 : fullMatch r w <;> simp_all
+
+/-! ## The formal matcher is the standard semantics
+
+`Matches r w i j` (SerfProofs/Lemmas/RegexSem.lean) is the textbook inductive definition of
+"`r` matches `w[i..j)`" with anchors; the executable `ends` — including the star's bounded
+closure — computes exactly that relation.  So the anchoring theorem is a statement about the
+standard semantics, not about an ad-hoc matcher. -/
+
+theorem C26_matcher_correct (r : Regex) (w : List Char) (i j : Nat) (hi : i ≤ w.length) :
+    j ∈ ends r w i ↔ Matches r w i j := mem_ends_iff r w i j hi
+
+theorem C26_fullMatch_iff (r : Regex) (w : List Char) : fullMatch r w = true ↔ Matches r w 0 w.length := by
+  unfold fullMatch
+  rw [List.contains_iff_mem]
+  exact mem_ends_iff r w 0 w.length (Nat.zero_le _)
+
+theorem C26_search_iff (r : Regex) (w : List Char) :
+    search r w = true ↔ ∃ i j, i ≤ w.length ∧ Matches r w i j := by
+  unfold search
+  rw [List.any_eq_true]
+  constructor
+  · rintro ⟨i, hi, hne⟩
+    have hi' : i ≤ w.length := by have := List.mem_range.1 hi; omega
+    cases he : ends r w i with
+    | nil => simp [he] at hne
+    | cons j js =>
+      exact ⟨i, j, hi', (mem_ends_iff r w i j hi').1 (by rw [he]; simp)⟩
+  · rintro ⟨i, j, hi, hm⟩
+    refine ⟨i, List.mem_range.2 (by omega), ?_⟩
+    have := (mem_ends_iff r w i j hi).2 hm
+    cases he : ends r w i with
+    | nil => rw [he] at this; simp at this
+    | cons _ _ => simp
+
+/-- **Anchoring, in the declarative semantics alone**: `^(?:r)$` matches somewhere in `w` iff
+`r` matches all of `w`. -/
+theorem C26_anchor_declarative (r : Regex) (w : List Char) :
+    (∃ i j, i ≤ w.length ∧ Matches (.cat .bot (.cat (.group r) .eot)) w i j) ↔ Matches r w 0 w.length := by
+  rw [← C26_search_iff, ← C26_fullMatch_iff]
+  exact C26_anchor_sound r w
+
+example : Matches (.alt (.char 'a') (.star (.char 'b'))) "bb".toList 0 2 ∧
+    ¬ Matches (.alt (.char 'a') (.star (.char 'b'))) "ab".toList 0 2 := by
+  constructor
+  · exact (C26_fullMatch_iff _ _).1 (by decide)
+  · intro h; have := (C26_fullMatch_iff _ _).2 h; revert this; decide
 
 /-! ## The code's shape (regenerated) is the shape the theorems are about -/
 
